@@ -541,6 +541,16 @@ class SymBool:
     def implies(self, o):
         return (~self) | _cb(o)
 
+    def __mul__(self, o):
+        # numpy semantics of bool * x: logical and for booleans, x-or-zero for numbers (forks the path)
+        if isinstance(o, (SymBool, bool, np.bool_)):
+            return self & o
+        if isinstance(o, np.ndarray):
+            return NotImplemented
+        return o if bool(self) else (ZERO if isinstance(o, Sym) else type(o)(0))
+
+    __rmul__ = __mul__
+
     def __eq__(self, o):
         return self is o
 
